@@ -1336,7 +1336,14 @@ ALLOC_C = 4 * 128 + 4 * 88 + 64
 
 class C06(ParserProp):
     pid = "C06"
-    theorems = [("C06_total", None)]
+    theorems = [("C06_total",
+                 "forall bs : list N, ok_in bs -> parse bs <> FilePanic /\\ forall k : nat, well_ended (sp_calls k (sp_new bs)) = true"),
+                ("C06_reservation", "forall (t : tlf) (input : list N), list_reservation t input <= lenN input")]
+    level_text = ("Theorems C06_total, C06_reservation (Coq, closed): on every byte string shorter than 2^32 neither parser reaches a panic "
+                  "site (indexing, checked arithmetic, u32/u64 counters, fuel) and the streaming iteration ends; the list pre-allocation is "
+                  "bounded by the remaining input. Heap usage of the real allocator (<= K*|x|+c, zero for the streaming parser) is MEASURED "
+                  "with a counting allocator, and the no-alloc build of the crate is checked - these two are not theorems.")
+    level_note = Prop.level_note + "; the real allocator, Vec growth policy and stack depth are outside the model: measured, not proved"
     suite_names = "S-PARSE (parse, palloc)"
     rule = ("valid files, corruptions with recomputed CRC, and valid messages in which any TLF is replaced by one declaring an "
             "arbitrary length up to and beyond 2^32-1; both parsers in debug and release; the real allocator is instrumented: total "
@@ -1511,7 +1518,20 @@ def tlf_probe_value(t, data):
 
 class C12(ParserProp):
     pid = "C12"
-    theorems = [("C12_tlf", None)]
+    theorems = [("C12_tlf",
+                 "forall input : list N, bytes_ok input -> lenN input < 4294967296 -> match tlf_parse input with "
+                 "| POk rest t => tlf_ref input = Some (tty t, tlen t, rest) | PErr _ => tlf_ref input = None | PPanic => False end"),
+                ("C12_int",
+                 "forall data rest : list N, 1 <= lenN data <= 8 -> bytes_ok data -> "
+                 "value_with_tlf (data ++ rest) (mktlf TInt (lenN data)) = POk rest (int_variant (lenN data) (twos data)) /\\ "
+                 "value_with_tlf (data ++ rest) (mktlf TUns (lenN data)) = POk rest (uns_variant (lenN data) (be data)) /\\ "
+                 "status_with_tlf (data ++ rest) (mktlf TUns (lenN data)) = POk rest (status_variant (lenN data) (be data))"),
+                ("C12_int_rejects", None), ("C12_bool_octet", None)]
+    level_text = ("Theorems C12_tlf, C12_int, C12_int_rejects, C12_bool_octet (Coq, closed): TypeLengthField::parse succeeds exactly when "
+                  "the independent reading tlf_ref (unbounded integers, any number of TLF bytes) does, with the same type, length and rest, "
+                  "and errs otherwise; 1..8-byte integers get exactly their two's-complement / plain value in the width class of their "
+                  "encoded size; booleans and byte strings are exact. Oracle: all 1-/2-byte TLFs (thorough: all 2^24 3-byte ones), "
+                  "boundary values around 2^32, every leading byte x width x signedness, vs an independent reference.")
     rule = ("TLF byte sequences of 1..12 bytes placed (a) as the list TLF of a get-list response (the streaming parser exposes the "
             "full 32-bit count) and (b) as the TLF of a value field followed by enough data: quick = all 1- and 2-byte TLFs and "
             "random/structured longer ones (values around 2^32, leading zero nibbles, reserved type bits), thorough = all 2^24 "
@@ -1591,7 +1611,12 @@ class C12(ParserProp):
 
 class C13(ParserProp):
     pid = "C13"
-    theorems = [("C13_term", None)]
+    theorems = [("C13_term",
+                 "forall (bs : list N) (k : nat), ok_in bs -> well_ended (sp_calls k (sp_new bs)) = true /\\ "
+                 "(n_items (sp_calls k (sp_new bs)) <= length bs + 1)%nat")]
+    level_text = ("Theorem C13_term (Coq, closed): for every input and every number of next() calls the results are events, at most one "
+                  "error, then None forever, with at most |bs|+1 items (each event consumes >= 1 byte; error and None are terminal). "
+                  "Oracle: the real iterator on corrupted files, |x|+2 calls plus 3 more.")
     rule = ("valid files, corruptions (bad checksum in the middle of a multi-message file, truncated or corrupt lists), real payloads; "
             "next() is called until None (at most |x|+2 times) and then 3 more times. Oracle: at most |x|+1 items, at most one error "
             "and only as the last item, every later call None. non-trivial = at least one item")
@@ -1878,10 +1903,10 @@ class C11(Prop):
         return bad
 
 
-REGISTRY = {"C01": C01, "C02": C02, "C05": C05, "C07": C07, "C08": C08, "C14": C14, "C15": C15, "C16": C16, "C17": C17, "C18": C18}
+REGISTRY = {"C01": C01, "C02": C02, "C05": C05, "C06": C06, "C07": C07, "C08": C08, "C12": C12, "C13": C13, "C14": C14, "C15": C15, "C16": C16, "C17": C17, "C18": C18}
 
 NOT_CLAIMED = {}
-for _p in ["C03", "C04", "C06", "C09", "C10", "C11", "C12", "C13"]:
+for _p in ["C03", "C04", "C09", "C10", "C11"]:
     NOT_CLAIMED[_p] = "check under construction in this revision (model/theorem not yet committed); the technique applies, see DESIGN.md section 5"
 
 
